@@ -48,6 +48,10 @@ func (pc *PairCall) script(jg *JGen) *CallScript {
 	}
 	for i, w := range pc.Replies {
 		raw := json.RawMessage(w)
+		if w == "" {
+			cs.Steps = append(cs.Steps, Step{Op: "reply", Cont: i < len(pc.Replies)-1, NoPar: true})
+			continue
+		}
 		if pc.ExactPad > 0 && i == len(pc.Replies)-1 {
 			raw = json.RawMessage(`{"x":"` + strings.Repeat("x", pc.ExactPad) + `"}`)
 		} else if pc.BigReply > 0 && i == len(pc.Replies)-1 {
@@ -330,6 +334,88 @@ func c03Pipelined(r *fw.Run, p *Pair, jg *JGen, k int) {
 	r.Case(fw.Hash("pipelined", p.Transport, fmt.Sprint(k)), true)
 }
 
+// pairInterleaved: k calls on one connection whose Sends and receives interleave in a seeded order (replies are always
+// taken in call order, each through its own receive function): S0 S1 R0 S2 R1 R2 ... The proxy forwards as read,
+// in random pieces, or coalesced (everything the service sends within 3 ms in one segment).
+func pairInterleaved(r *fw.Run, p *Pair, prop string, jg *JGen, k int) {
+	rng := rand.New(rand.NewSource(r.Seed*131 + int64(k)))
+	reseg := []int{3, 0, 3, 2}[k%4]
+	cs := map[string]interface{}{"what": "interleaved Sends and receives on one connection", "transport": p.Transport, "reseg": reseg, "k": k}
+	p.Proxy.TakeConns()
+	p.Rig.Log.Take()
+	p.Proxy.Reseg = int32(reseg)
+	defer func() { p.Proxy.Reseg = 0 }()
+	ctx, cancel := context.WithTimeout(context.Background(), 25*time.Second)
+	defer cancel()
+	conn, err := p.Connect(ctx)
+	if err != nil {
+		r.Inconclusive("connect: %v", err)
+		return
+	}
+	defer closeBounded(conn, 15*time.Second)
+	ncalls := 2 + rng.Intn(4)
+	type pend struct {
+		recv func(context.Context, interface{}) (uint64, error)
+		want []string
+		got  int
+	}
+	var scripts []*CallScript
+	var wants [][]string
+	for c := 0; c < ncalls; c++ {
+		id := fmt.Sprintf("il%d.%d", k, c)
+		sc := &CallScript{ID: id}
+		var want []string
+		n := 1 + rng.Intn(3)
+		for i := 0; i < n; i++ {
+			w := fmt.Sprintf(`{"call":%q,"i":%d,"v":%s}`, id, i, jg.Value(1))
+			want = append(want, w)
+			sc.Steps = append(sc.Steps, Step{Op: "reply", Cont: i < n-1, Raw: json.RawMessage(w)})
+		}
+		scripts = append(scripts, sc)
+		wants = append(wants, want)
+	}
+	var queue []*pend
+	sent := 0
+	order := ""
+	for sent < ncalls || len(queue) > 0 {
+		doSend := sent < ncalls && (len(queue) == 0 || rng.Intn(2) == 0)
+		if doSend {
+			recv, err := conn.Send(ctx, pairMethod, scripts[sent], varlink.More)
+			if err != nil {
+				r.Violation(prop+" send-failed", fmt.Sprintf("transport %s, order %s: Send #%d with %d earlier calls unanswered: %v", p.Transport, order, sent, len(queue), err), cs)
+				return
+			}
+			queue = append(queue, &pend{recv: recv, want: wants[sent]})
+			order += fmt.Sprintf("S%d ", sent)
+			sent++
+			continue
+		}
+		q := queue[0]
+		ci := sent - len(queue)
+		order += fmt.Sprintf("R%d ", ci)
+		var out json.RawMessage
+		fl, err := q.recv(ctx, &out)
+		if err != nil {
+			r.Violation(prop+" receive-failed", fmt.Sprintf("transport %s, proxy mode %d, order %s: call %d reply %d of %d: receive returned %T %v", p.Transport, reseg, order, ci, q.got, len(q.want), err, err), cs)
+			return
+		}
+		if d := jEqualParams([]byte(q.want[q.got]), out); d != "" {
+			r.Violation(prop+" reply-parameters-changed", fmt.Sprintf("transport %s, proxy mode %d, order %s: call %d reply %d: %s", p.Transport, reseg, order, ci, q.got, d), cs)
+			return
+		}
+		if (fl&varlink.Continues != 0) == (q.got == len(q.want)-1) {
+			r.Violation(prop+" continues-indication", fmt.Sprintf("transport %s, order %s: call %d reply %d of %d: flags %d", p.Transport, order, ci, q.got, len(q.want), fl), cs)
+		}
+		q.got++
+		if q.got == len(q.want) {
+			queue = queue[1:]
+		}
+	}
+	r.Distinct("interleaving_orders", order)
+	r.Count("interleaved_connections", 1)
+	r.Case(fw.Hash("interleaved", p.Transport, fmt.Sprint(k)), true)
+}
+
 // c03Monitor: a handler that sends a continues-reply and then waits for an event; the client must receive that reply
 // while the handler is still waiting.
 func c03Monitor(r *fw.Run, p *Pair, k int) {
@@ -465,6 +551,12 @@ func genPairCalls(rng *rand.Rand, jg *JGen, tag string, n int, depth int) []Pair
 				pc.Replies = append(pc.Replies, fmt.Sprintf(`{"i":%d,"v":%s}`, j, jg.Value(depth-1)))
 			}
 		}
+		// now and then a reply without a parameters member at all (what Reply(ctx, nil) puts on the wire), at any place of a sequence
+		for j := range pc.Replies {
+			if rng.Intn(8) == 0 {
+				pc.Replies[j] = ""
+			}
+		}
 		out = append(out, pc)
 	}
 	return out
@@ -495,6 +587,8 @@ func runC03(r *fw.Run) {
 			c03LateRead(r, p, k)
 			c03Pipelined(r, p, jg, k)
 			c03Monitor(r, p, k)
+			pairInterleaved(r, p, "C03", jg, 4*k)
+			pairInterleaved(r, p, "C03", jg, 4*k+1)
 		}
 		r.Distinct("transports", tr)
 		if err, ok := p.Close(); !ok {
@@ -586,6 +680,10 @@ func runC02(r *fw.Run) {
 		// a pause in the middle of a reply that outlasts the deadline of an EARLIER, completed call on the same connection
 		for k := 0; k < r.Pick(2, 8); k++ {
 			c02DeadlineThenPause(r, p, tr, k)
+		}
+		// Sends and receives interleaved on one connection, replies coalesced / as read / in random pieces
+		for k := 0; k < r.Pick(24, 200) && r.ViolationCount() <= 12; k++ {
+			pairInterleaved(r, p, "C02", jg, k)
 		}
 		// every message length in a window around each multiple of the reader buffer size, both directions
 		for _, centre := range []int{4096, 8192, 65536} {
@@ -753,14 +851,14 @@ func runC02(r *fw.Run) {
 func init() {
 	fw.Register(&fw.Engine{
 		ID: "C03", Level: "exploration",
-		Rule: "a case = one client connection making 1..5 calls through a recording proxy to a real Service on one of the four transports (filesystem unix socket, abstract unix socket, TCP, bridge subprocess via NewBridge) in one of three call styles (Call; Send+receive; Send with more + a sequence of 1,2,3,5,9 or 17 replies). Parameters are generated JSON objects (integers beyond 2^53 and 2^64, exponents, -0, 1.0e+2, empty objects/arrays, null members, unicode incl. NUL escapes, surrogate pairs, U+2028) passed as json.RawMessage, as map[string]interface{} with json.Number, or as a typed struct; each reply's parameters are generated the same way. Oracle: what the handler read (GetParameters into json.RawMessage) is number-exactly JSON-equal to what the client passed; what receive/Call yielded (into *json.RawMessage) is number-exactly JSON-equal to what the handler replied, for every reply of a more-sequence, with Continues set on all but the last. The proxy forwards unchanged, byte-wise, or in random pieces. distinct by hash of transport + calls; all cases non-trivial (>= 1 generated document each way). Also per transport: a reply followed by the service closing the connection, read late by the client; two calls in flight (Send, Send, receive..., receive...); a monitor-style handler that sends continues-replies and then waits for an event (the client must get them while it waits); Connection.Close bounded at 15 s.",
+		Rule: "a case = one client connection making 1..5 calls through a recording proxy to a real Service on one of the four transports (filesystem unix socket, abstract unix socket, TCP, bridge subprocess via NewBridge) in one of three call styles (Call; Send+receive; Send with more + a sequence of 1,2,3,5,9 or 17 replies). Parameters are generated JSON objects (integers beyond 2^53 and 2^64, exponents, -0, 1.0e+2, empty objects/arrays, null members, unicode incl. NUL escapes, surrogate pairs, U+2028) passed as json.RawMessage, as map[string]interface{} with json.Number, or as a typed struct; each reply's parameters are generated the same way; one reply in eight has no parameters member at all (Reply(ctx, nil)), at any place of a sequence. Oracle: what the handler read (GetParameters into json.RawMessage) is number-exactly JSON-equal to what the client passed; what receive/Call yielded (into *json.RawMessage) is number-exactly JSON-equal to what the handler replied, for every reply of a more-sequence, with Continues set on all but the last. The proxy forwards unchanged, byte-wise, or in random pieces. distinct by hash of transport + calls; all cases non-trivial (>= 1 generated document each way). Also per transport: a reply followed by the service closing the connection, read late by the client; two calls in flight (Send, Send, receive..., receive...); 2-5 calls whose Sends and receives interleave in seeded orders (S0 S1 R0 S2 R1 ...) while the proxy coalesces everything the service sends within 3 ms into one segment; a monitor-style handler that sends continues-replies and then waits for an event (the client must get them while it waits); Connection.Close bounded at 15 s.",
 		Assumptions: []string{"number fidelity is asserted for callers that receive into json.RawMessage (decoding into interface{} is the caller's own loss)", "an absent parameters member equals {}"},
 		Run:         runC03, Replay: replayPair("C03", false), CrashIsViolation: true, MinEvals: 50,
 		QuickTimeout: 15 * time.Minute, ThoroughTimeout: 60 * time.Minute,
 	})
 	fw.Register(&fw.Engine{
 		ID: "C02", Level: "exploration",
-		Rule: "Part A (emission + reception through a recording proxy, unix and TCP): generated call lists as in C03 plus message sizes 0..1 MiB (thorough: 8 MiB) placed around the 4096-byte reader buffer, nesting depth up to 2000, strings with escaped NUL, quotes, every C0 control, U+2028/9, non-BMP; each list is run under 3 proxy re-segmentations (as read, one byte per write, random pieces incl. 4095/4096/4097). Wire oracle on both captured directions: the stream ends with NUL, splitting at NUL yields exactly as many chunks as messages were sent, every chunk is valid JSON whose first non-blank byte is '{'; value oracle as in C03, identical under all re-segmentations. Part B (service reception): raw client writes call sequences with pads around 4096/8192/70000 bytes under 5 exact partitions (one write, byte-wise, random cuts with pauses, one write per frame, cuts at 4095/4096/4097/8191/8192/8193); handler log and replies must equal the sequential model. Part C (client reception): scripted raw server plays reply streams under the same 5 partitions; every receive must yield exactly the next frame. distinct by hash of (part, partition, content). Part B runs three connections at a time; Part B2: twelve connections whose replies are larger than the socket buffer, slow readers, GOMAXPROCS(2); a reply whose halves arrive 450 ms apart after an earlier call with a 300 ms deadline; 400 ms pauses inside and between frames against a service with a 150 ms idle timeout.",
+		Rule: "Part A (emission + reception through a recording proxy, unix and TCP): generated call lists as in C03 plus message sizes 0..1 MiB (thorough: 8 MiB) placed around the 4096-byte reader buffer, nesting depth up to 2000, strings with escaped NUL, quotes, every C0 control, U+2028/9, non-BMP; each list is run under 3 proxy re-segmentations (as read, one byte per write, random pieces incl. 4095/4096/4097). Wire oracle on both captured directions: the stream ends with NUL, splitting at NUL yields exactly as many chunks as messages were sent, every chunk is valid JSON whose first non-blank byte is '{'; value oracle as in C03, identical under all re-segmentations. Part B (service reception): raw client writes call sequences with pads around 4096/8192/70000 bytes under 5 exact partitions (one write, byte-wise, random cuts with pauses, one write per frame, cuts at 4095/4096/4097/8191/8192/8193); handler log and replies must equal the sequential model. Part C (client reception): scripted raw server plays reply streams under the same 5 partitions; every receive must yield exactly the next frame. distinct by hash of (part, partition, content). Part B runs three connections at a time; Part B2: twelve connections whose replies are larger than the socket buffer, slow readers, GOMAXPROCS(2); a reply whose halves arrive 450 ms apart after an earlier call with a 300 ms deadline; 400 ms pauses inside and between frames against a service with a 150 ms idle timeout. Part A also runs 2-5 calls whose Sends and receives interleave in seeded orders with the replies coalesced into one segment, as read, or in random pieces: each receive must yield the next message of its own call.",
 		Assumptions: []string{"callers pass valid UTF-8 (invalid UTF-8 cannot be represented in a Go string that encoding/json round-trips)"},
 		Run:         runC02, Replay: replayPair("C02", true), CrashIsViolation: true, MinEvals: 50,
 		QuickTimeout: 15 * time.Minute, ThoroughTimeout: 60 * time.Minute,
